@@ -31,7 +31,7 @@ def case(rep, drv, rnd, i, tier):
     except RecursionError:
         real = None
     try:
-        model = drv.ask(unif.model_cmd(pairs, watch, sched))
+        model = unif._fix_py_entries(drv.ask(unif.model_cmd(pairs, watch, sched)))
     except common.ModelTimeout:
         rep.count('model-budget-exceeded-skipped')
         return
